@@ -371,7 +371,7 @@ func c11Heavy(reps int) int {
 	for r := 0; r < reps; r++ {
 		loader := jet.NewInMemLoader()
 		loader.Set("/inc.jet", `[{{ .F0 }}{{ .F1 }}]`)
-		loader.Set("/heavy.jet", `{{ range i, x := xs }}{{ i }}{{ x }}{{ end }}|{{ range k, v := m }}{{ k }}{{ v }}{{ end }}|{{ include "inc" st }}|{{ st.F2 }}|{{ gg }}`)
+		loader.Set("/heavy.jet", `{{ range z := none }}z{{ else }}-{{ end }}{{ range k, v := nomap }}z{{ else }}-{{ end }}{{ range i, x := xs }}{{ i }}{{ x }}{{ range _, y := ys }}{{ y }}{{ end }}{{ end }}|{{ range k, v := m }}{{ k }}{{ v }}{{ range k2, v2 := m }}{{ v2 }}{{ end }}{{ end }}|{{ include "inc" st }}|{{ st.F2 }}|{{ gg }}`)
 		loader.Set("/edit.jet", bodyA)
 		set := jet.NewSet(loader, jet.InDevelopmentMode())
 		set.AddGlobal("gg", 7)
@@ -384,7 +384,7 @@ func c11Heavy(reps int) int {
 		for k := 0; k < 3; k++ {
 			st.Field(k).SetString(fmt.Sprintf("f%d", k))
 		}
-		want := "0p1q|k1|[f0f1]|f2|7"
+		want := "--0prs1qrs|k11|[f0f1]|f2|7"
 		var wg sync.WaitGroup
 		for g := 0; g < 4; g++ {
 			wg.Add(1)
@@ -402,7 +402,8 @@ func c11Heavy(reps int) int {
 						return
 					}
 					vars := jet.VarMap{}
-					vars.Set("xs", []string{"p", "q"}).Set("m", map[string]int{"k": 1}).Set("st", st.Interface())
+					vars.Set("xs", []string{"p", "q"}).Set("ys", []string{"r", "s"}).Set("none", []string{}).Set("nomap", map[string]int{}).
+						Set("m", map[string]int{"k": 1}).Set("st", st.Interface())
 					var b bytes.Buffer
 					if err := t.Execute(&b, vars, nil); err != nil || b.String() != want {
 						fail("heavy rendered %q (err %v), alone it renders %q", b.String(), err, want)
